@@ -46,6 +46,8 @@ def NL(lat):
 def NL_set(lat):
     """Set of acceptable NL values: both neighbours within 1e-9 deg of a transition latitude."""
     a = abs(lat)
+    if a == 87.0:
+        return {2}   # "2 for |lat| up to and including 87": stated for this latitude by name, and 87.0 is exactly representable
     s = {NL(a)}
     for nl, t in TRANS.items():
         if abs(a - t) <= EPS:
